@@ -320,23 +320,29 @@ instance (sd : SchemaDoc) : Decidable (WellFormed sd) := decidable_of_iff _ (wfB
 
 /- ------------------------------------------------------------------ predicates on a loaded schema -/
 
+def anyKind : DefKind → Bool := fun _ => true
+
 /-- `n` resolves in `s.types` to a definition whose kind satisfies `p` -/
 def typeIs (s : Schema) (n : Name) (p : DefKind → Bool) : Bool :=
   match s.types.lookup n with
   | some d => p d.kind
   | none => false
 
-def anyKind : DefKind → Bool := fun _ => true
-
 def directiveIs (s : Schema) (d : Directive) (loc : Bytes) : Bool :=
   match s.directives.lookup d.name with
   | some dd => dd.locations.contains loc
   | none => false
 
+/-- what a field of a definition of kind `k` may hold: output types on objects and interfaces, input
+    types on input objects (other kinds have no fields in any parsed document; only resolution is asked) -/
+def fieldPosition : DefKind → DefKind → Bool
+  | .object | .interface => isOutputKind
+  | .inputObject => isInputKind
+  | _ => anyKind
+
 /-- field types resolve; output types on objects and interfaces, input types on input objects -/
 def ClosedFieldTypes (s : Schema) : Prop :=
-  ∀ p ∈ s.types, ∀ f ∈ p.2.fields,
-    typeIs s f.type.name (if p.2.kind = .inputObject then isInputKind else isOutputKind) = true
+  ∀ p ∈ s.types, ∀ f ∈ p.2.fields, typeIs s f.type.name (fieldPosition p.2.kind) = true
 
 /-- argument types of fields resolve to input types -/
 def ClosedArgTypes (s : Schema) : Prop :=
@@ -376,7 +382,7 @@ def ClosedDirectiveUses (s : Schema) : Prop :=
       (∀ d ∈ f.dirs, directiveIs s d
         (if p.2.kind = .inputObject then str "INPUT_FIELD_DEFINITION" else str "FIELD_DEFINITION") = true) ∧
       (∀ a ∈ f.args, ∀ d ∈ a.dirs, directiveIs s d (str "ARGUMENT_DEFINITION") = true)) ∧
-    (∀ v ∈ p.2.enumValues, ∀ d ∈ v.dirs, directiveIs s d (str "ENUM_VALUE") = true)) ∧
+    (p.2.kind = .enum → ∀ v ∈ p.2.enumValues, ∀ d ∈ v.dirs, directiveIs s d (str "ENUM_VALUE") = true)) ∧
   (∀ d ∈ s.schemaDirectives, directiveIs s d (str "SCHEMA") = true) ∧
   (∀ p ∈ s.directives, ∀ a ∈ p.2.args, ∀ d ∈ a.dirs, directiveIs s d (str "ARGUMENT_DEFINITION") = true)
 
